@@ -184,6 +184,7 @@ def check_order(world, pipe, res, consumers=None):
     the consumer in start order) for synchronized sources; non-decreasing for ephemeral ones; content as published."""
     out = []
     last = {}
+    pubidx = None
     for ev in world.clog:
         if ev['ev'] != 'process' or ev['ins'] is None:
             continue
@@ -193,6 +194,9 @@ def check_order(world, pipe, res, consumers=None):
         edges = pipe.inputs_of(cons)
         if not edges:
             continue
+        mixed = any(e['eph'] for e in edges) and not all(e['eph'] for e in edges)
+        if mixed and pubidx is None:
+            pubidx = PubIndex(world)      # needed to tell which source a frame came from when synchronized and ephemeral sources meet
         if ev.get('bad'):
             for t, m in ev['bad']:
                 out.append(('content-altered', f'{cons}: frame on topic {t!r} differs from what was published: {m}'))
@@ -201,7 +205,11 @@ def check_order(world, pipe, res, consumers=None):
         for dst, tok in ev['ins'].items():
             if 'o' not in tok:
                 continue
-            eph = is_from_ephemeral(pipe, cons, dst, tok)
+            if mixed:
+                c = edge_for_topic(edges, dst, pubidx, tok)
+                eph = bool(c[0][0]['eph']) if c else is_from_ephemeral(pipe, cons, dst, tok)
+            else:
+                eph = bool(edges[0]['eph'])
             key = (cons, tok['o'], tok['oi'], 'e' if eph else 's')
             v = tok['seq']
             if (key, v) in seen_here:
